@@ -199,7 +199,10 @@ def apply_mutation(v, m, msg, kind, pick):
 def consistency(msg, v, text_for_force=None):
     """purity and report consistency; -> (violations, report)"""
     out = []
-    before = (msg.to_er7(), listing(msg))
+    try:
+        before = (msg.to_er7(), listing(msg))
+    except Exception as e:
+        return [('C04-message-cannot-be-encoded:%s' % type(e).__name__, _exc(e))], None
     try:
         r1 = msg.validate(return_errors=True)
         r2 = msg.validate(return_errors=True)
